@@ -30,6 +30,17 @@ Proof.
   - constructor. exact IHl.
 Qed.
 
+Lemma NoDup_app_remove_l {A} (l1 l2 : list A) : NoDup (l1 ++ l2) -> NoDup l2.
+Proof. induction l1; simpl; auto. intros H. inversion H; auto. Qed.
+
+Lemma NoDup_app_disjoint {A} (l1 l2 : list A) a : NoDup (l1 ++ l2) -> In a l1 -> In a l2 -> False.
+Proof.
+  induction l1; simpl; intros ND H1 H2; [contradiction|].
+  inversion ND; subst. destruct H1 as [H1|H1].
+  - subst. apply H3. apply in_or_app. auto.
+  - auto.
+Qed.
+
 (* ------------------------------------------------------------------ *)
 (* entry transformers                                                  *)
 (* ------------------------------------------------------------------ *)
@@ -138,9 +149,11 @@ Definition fresh (e : entry) : Prop :=
 
 Definition sers (s : st) : list nat := map e_ser (insts s).
 
-(* log of an admitted entry, oldest first: READY, RUNNING, then no start message any more *)
+(* message log of a query instance, oldest first: READY, RUNNING at most once and only at the very
+   beginning (an instance that was cancelled while waiting has just CANCELLED) *)
 Definition log_ok (e : entry) : Prop :=
-  e_log e = [] \/ exists rest, e_log e = rest ++ [RUNNING; READY] /\ Forall (fun m => is_start_msg m = false) rest.
+  exists rest, Forall (fun m => is_start_msg m = false) rest /\
+               (e_log e = rest \/ e_log e = rest ++ [RUNNING; READY]).
 
 Record Inv (mx : nat) (s : st) : Prop := {
   i_adm : nonforced (running s) <= mx;
@@ -204,20 +217,16 @@ Proof.
     rewrite Forall_forall in *. intros y Hy. apply H3. rewrite in_app_iff in *. simpl. tauto.
 Qed.
 
-Lemma log_ok_keeps f e : keeps f -> log_ok e -> e_log e <> [] -> log_ok (f e).
+Lemma log_ok_keeps_gen f e : keeps f -> log_ok e -> log_ok (f e).
 Proof.
-  intros K [H|[rest [H1 H2]]] Hne; [contradiction|].
-  destruct (K e) as (_ & _ & _ & ext & E & F).
-  right. exists (ext ++ rest). rewrite E, H1, app_assoc. split; auto.
-  apply Forall_app. auto.
+  intros K [rest [F H]]. destruct (K e) as (_ & _ & _ & ext & E & Fe).
+  exists (ext ++ rest). split; [apply Forall_app; auto|].
+  rewrite E. destruct H as [H|H]; rewrite H; [left; reflexivity|right; rewrite app_assoc; reflexivity].
 Qed.
 
-Lemma log_ok_keeps_any f e : keeps f -> log_ok e -> (e_log e = [] -> e_log (f e) = []) -> log_ok (f e).
-Proof.
-  intros K H Hz. destruct (e_log e) eqn:El.
-  - left. auto.
-  - apply log_ok_keeps; auto. rewrite El. discriminate.
-Qed.
+Lemma log_ok_keeps f e : keeps f -> log_ok e -> e_log e <> [] -> log_ok (f e).
+Proof. intros K H _. apply log_ok_keeps_gen; auto. Qed.
+
 
 Lemma keeps_log_nonempty f e : keeps f -> e_log e <> [] -> e_log (f e) <> [].
 Proof.
@@ -258,35 +267,51 @@ Proof.
 Qed.
 
 (* ---------- CancelQuery ---------- *)
-Lemma Inv_cancel mx s q : Inv mx s -> Inv mx (cancel q s).
+(* an entry taken out of the waiting queue (CancelQuery / DeleteQuery of a query that has not
+   started): it goes to the graveyard, possibly changed by f *)
+Lemma Inv_unqueue mx s q f ws w : keeps f -> Inv mx s ->
+  Inv mx (mkS (running s) (snd (remove_first q (waiting s))) ws
+              (opt_cons (option_map f (fst (remove_first q (waiting s)))) (dead s))
+              (admitted s) (nser s) w).
 Proof.
-  intros I. unfold cancel. destruct (lookup q (running s)) as [e|] eqn:L; auto.
+  intros K I.
   pose proof (remove_first_spec q (waiting s)) as RS.
-  destruct (remove_first q (waiting s)) as [rm wq].
+  destruct (remove_first q (waiting s)) as [rm wq]. simpl.
   destruct RS as (P & Ln & I1 & I2 & I3 & a & b & E1 & E2).
-  pose proof keeps_cancel_entry as K.
-  destruct I. constructor; unfold sers, insts in *; simpl.
-  - rewrite nonforced_upd; auto.
+  assert (PS : Permutation (map e_ser (running s ++ waiting s ++ dead s))
+                           (map e_ser (running s ++ wq ++ opt_cons (option_map f rm) (dead s)))).
+  { eapply Permutation_trans; [apply Permutation_map, (insts_perm_cancel rm wq); exact P|].
+    rewrite !map_app. apply Permutation_app_head, Permutation_app_head.
+    destruct rm; simpl; auto. destruct (K e) as (Ks & _). rewrite Ks. reflexivity. }
+  destruct I. constructor; unfold sers, insts in *; simpl; auto.
   - lia.
   - rewrite Forall_forall in *. auto.
-  - rewrite map_qid_upd; auto.
-  - rewrite map_app. rewrite map_ser_upd; auto. rewrite <- map_app.
-    eapply Permutation_NoDup; [|exact i_sers0].
-    apply Permutation_map. apply insts_perm_cancel. exact P.
-  - rewrite map_app. rewrite map_ser_upd; auto. rewrite <- map_app.
-    rewrite Forall_forall in *. intros x Hx. apply i_nser0.
-    eapply Permutation_in; [|exact Hx]. apply Permutation_sym.
-    apply Permutation_map. apply insts_perm_cancel. exact P.
+  - eapply Permutation_NoDup; [exact PS|exact i_sers0].
+  - rewrite Forall_forall in *. intros x Hx. apply i_nser0.
+    eapply Permutation_in; [apply Permutation_sym, PS|exact Hx].
   - rewrite E1 in i_fifo0. rewrite E2. destruct rm; simpl in *; auto.
     rewrite !map_app in *. simpl in *. rewrite app_assoc in *.
     eapply sorted_remove_mid. exact i_fifo0.
-  - auto.
-  - rewrite !Forall_app in *. destruct i_log0 as (A & B & C). split; [|split].
-    + rewrite Forall_forall in *. intros e' Hin. apply in_upd_qid in Hin. destruct Hin as [e0 [Hin E]]. subst.
-      destruct (has_qid q e0); auto. apply log_ok_keeps; auto.
+  - rewrite !Forall_app in *. destruct i_log0 as (A & B & C). split; [|split]; auto.
     + rewrite Forall_forall in *. auto.
-    + destruct rm; simpl; auto. constructor; auto. rewrite Forall_forall in B. apply B. apply I2. reflexivity.
-  - apply Forall_upd_qid; auto. intros. apply keeps_log_nonempty; auto.
+    + destruct rm; simpl; auto. constructor; auto. apply log_ok_keeps_gen; auto.
+      rewrite Forall_forall in B. apply B. apply I2. reflexivity.
+Qed.
+
+Lemma keeps_id : keeps (fun e => e).
+Proof. intros e. repeat split. exists []. split; [reflexivity|constructor]. Qed.
+
+Lemma option_map_id {A} (x : option A) : option_map (fun e => e) x = x.
+Proof. destruct x; reflexivity. Qed.
+
+Lemma surj_pair_let {A B C} (p : A * B) (g : A -> B -> C) : (let '(a, b) := p in g a b) = g (fst p) (snd p).
+Proof. destruct p; reflexivity. Qed.
+
+Lemma Inv_cancel mx s q : Inv mx s -> Inv mx (cancel q s).
+Proof.
+  intros I. unfold cancel. destruct (lookup q (running s)) as [e|] eqn:L.
+  - apply Inv_upd; auto. apply keeps_cancel_entry.
+  - rewrite surj_pair_let. apply Inv_unqueue; auto. apply keeps_cancel_entry.
 Qed.
 
 (* ---------- DeleteQuery ---------- *)
@@ -351,7 +376,7 @@ Proof.
   - rewrite Forall_forall in *. intros x Hx.
     assert (Hx' : In x (e2 :: running s0 ++ waiting s0 ++ dead s0)).
     { eapply Permutation_in; [|exact Hx]. apply Permutation_sym, (insts_perm_admit e2 (e_qid e)). }
-    destruct Hx' as [Hx'|Hx']; [|auto]. subst. right. exists []. rewrite L2. split; [reflexivity|constructor].
+    destruct Hx' as [Hx'|Hx']; [|auto]. subst. exists []. rewrite L2. split; [constructor|right; reflexivity].
   - constructor; [rewrite L2; discriminate|].
     rewrite Forall_forall in *. intros x Hx. apply i_started0. unfold remove_qid in Hx.
     apply filter_In in Hx. tauto.
@@ -427,7 +452,7 @@ Proof.
   - rewrite Forall_forall in *. intros x Hx.
     assert (Hx' : In x (e :: running s ++ waiting s ++ dead s)).
     { eapply Permutation_in; [|exact Hx]. apply Permutation_sym, P. }
-    destruct Hx' as [Hx'|Hx']; [subst; left; reflexivity|auto].
+    destruct Hx' as [Hx'|Hx']; [subst; exists []; split; [constructor|left; reflexivity]|auto].
 Qed.
 
 Lemma exec_send_Inv mx s q m : is_start_msg m = false -> Inv mx s -> Inv mx (exec_send q m s).
@@ -466,7 +491,10 @@ Proof.
     + apply Inv_ws. exact I.
   - apply exec_send_Inv; auto.
   - apply exec_send_Inv; auto.
-  - destruct (lookup q (running s)) as [e|]; simpl; [|exact I]. apply Inv_delete. exact I.
+  - destruct (lookup q (running s)) as [e|]; simpl; [apply Inv_delete; exact I|].
+    rewrite surj_pair_let. cbn [fst].
+    pose proof (Inv_unqueue mx s q (fun e => e) (watchers s) false keeps_id I) as H.
+    rewrite option_map_id in H. exact H.
   - destruct (lookup q (running s)) as [e|]; simpl; [|exact I].
     destruct (e_chan e); simpl; [exact I|]. apply Inv_upd; auto. apply keeps_pop.
 Qed.
@@ -529,6 +557,23 @@ Proof.
   intros F. rewrite Forall_forall in *. intros x Hx. unfold remove_qid in Hx. apply filter_In in Hx. apply F. tauto.
 Qed.
 
+Lemma running_cancel q s :
+  running (cancel q s) = match lookup q (running s) with
+                         | Some _ => upd_qid q cancel_entry (running s)
+                         | None => running s
+                         end.
+Proof.
+  unfold cancel. destruct (lookup q (running s)); [reflexivity|].
+  destruct (remove_first q (waiting s)); reflexivity.
+Qed.
+
+Lemma nf_cancel q s : Forall (fun e => e_forced e = false) (running s) ->
+  Forall (fun e => e_forced e = false) (running (cancel q s)).
+Proof.
+  intros F. rewrite running_cancel. destruct (lookup q (running s)); auto.
+  apply Forall_nf_upd; auto. apply keeps_cancel_entry.
+Qed.
+
 Lemma nf_step mx s o : Inv mx s -> is_forced_start o = false ->
   Forall (fun e => e_forced e = false) (running s) ->
   Forall (fun e => e_forced e = false) (running (fst (step mx s o))).
@@ -543,20 +588,17 @@ Proof.
     pose proof (i_fresh _ _ I) as Fr. rewrite W in Fr. inversion Fr as [|x l (C1 & C2 & C3 & C4) Fr']; subst.
     unfold run_query. rewrite C3. rewrite admit_fresh; auto. simpl.
     constructor; auto. apply Forall_remove_qid. exact F.
-  - unfold cancel. destruct (lookup q (running s)); [|exact F].
-    destruct (remove_first q (waiting s)). simpl. apply Forall_nf_upd; auto. apply keeps_cancel_entry.
+  - apply nf_cancel. exact F.
   - destruct (remove_watcher_q q (watchers s)) as [[wt|] ws]; simpl; [|exact F].
     destruct (lookup q (running s)) as [e|] eqn:L; simpl; [|exact F].
     destruct (has_room e); simpl; [|exact F].
-    unfold cancel. simpl. destruct (lookup q (upd_qid q (push TIMEOUT) (running s))).
-    + destruct (remove_first q (waiting s)). simpl. apply Forall_nf_upd; [apply keeps_cancel_entry|].
-      apply Forall_nf_upd; auto. apply keeps_push. reflexivity.
-    + simpl. apply Forall_nf_upd; auto. apply keeps_push. reflexivity.
+    apply nf_cancel. simpl. apply Forall_nf_upd; auto. apply keeps_push. reflexivity.
   - unfold exec_send. destruct (lookup q (running s)); [|exact F]. destruct (has_room e); [|exact F].
     simpl. apply Forall_nf_upd; auto. apply keeps_push. reflexivity.
   - unfold exec_send. destruct (lookup q (running s)); [|exact F]. destruct (has_room e); [|exact F].
     simpl. apply Forall_nf_upd; auto. apply keeps_push. reflexivity.
-  - destruct (lookup q (running s)); [|exact F]. simpl. apply Forall_remove_qid. exact F.
+  - destruct (lookup q (running s)); [simpl; apply Forall_remove_qid; exact F|].
+    destruct (remove_first q (waiting s)). exact F.
   - destruct (lookup q (running s)); [|exact F]. destruct (e_chan e); [exact F|]. simpl.
     apply Forall_nf_upd; auto. apply keeps_pop.
 Qed.
@@ -614,19 +656,28 @@ Proof.
   - exists e. split; [rewrite !in_app_iff; right; exact H|apply later_refl].
 Qed.
 
+Lemma ext_unqueue s q f ws w : keeps f ->
+  ext_rel s (mkS (running s) (snd (remove_first q (waiting s))) ws
+                 (opt_cons (option_map f (fst (remove_first q (waiting s)))) (dead s))
+                 (admitted s) (nser s) w).
+Proof.
+  intros K.
+  pose proof (remove_first_spec q (waiting s)) as RS.
+  destruct (remove_first q (waiting s)) as [rm wq]. simpl.
+  destruct RS as (P & Ln & I1 & I2 & I3 & _).
+  intros x Hin. unfold insts in *. simpl. rewrite !in_app_iff in Hin. destruct Hin as [H|[H|H]].
+  - exists x. split; [rewrite !in_app_iff; auto|apply later_refl].
+  - destruct (I3 x H) as [H'|H'].
+    + exists x. split; [rewrite !in_app_iff; auto|apply later_refl].
+    + subst. exists (f x). split; [rewrite !in_app_iff; right; right; simpl; auto|apply later_keeps; auto].
+  - exists x. split; [|apply later_refl]. rewrite !in_app_iff. right. right. destruct rm; simpl; auto.
+Qed.
+
 Lemma ext_cancel s q : ext_rel s (cancel q s).
 Proof.
-  unfold cancel. destruct (lookup q (running s)); [|apply ext_refl].
-  pose proof (remove_first_spec q (waiting s)) as RS.
-  destruct (remove_first q (waiting s)) as [rm wq].
-  destruct RS as (P & Ln & I1 & I2 & I3 & _).
-  intros x Hin. unfold insts in *. simpl. rewrite !in_app_iff in *. destruct Hin as [H|[H|H]].
-  - exists (if has_qid q x then cancel_entry x else x). split.
-    + rewrite !in_app_iff. left. apply in_upd_qid_fwd. exact H.
-    + destruct (has_qid q x); [apply later_keeps, keeps_cancel_entry|apply later_refl].
-  - exists x. split; [|apply later_refl]. rewrite !in_app_iff. destruct (I3 x H) as [H'|H']; [tauto|].
-    subst. right. right. simpl. left. reflexivity.
-  - exists x. split; [|apply later_refl]. rewrite !in_app_iff. right. right. destruct rm; simpl; auto.
+  unfold cancel. destruct (lookup q (running s)).
+  - apply ext_upd. apply keeps_cancel_entry.
+  - rewrite surj_pair_let. apply ext_unqueue. apply keeps_cancel_entry.
 Qed.
 
 Lemma in_remove_or_filter q (l : list entry) x : In x l -> In x (remove_qid q l) \/ In x (filter (has_qid q) l).
@@ -681,7 +732,10 @@ Proof.
     destruct (has_room e); [|apply ext_refl]. apply ext_upd. apply keeps_push. reflexivity.
   - unfold exec_send. destruct (lookup q (running s)); [|apply ext_refl].
     destruct (has_room e); [|apply ext_refl]. apply ext_upd. apply keeps_push. reflexivity.
-  - destruct (lookup q (running s)); simpl; [|apply ext_refl]. apply ext_delete.
+  - destruct (lookup q (running s)); simpl; [apply ext_delete|].
+    rewrite surj_pair_let. cbn [fst].
+    pose proof (ext_unqueue s q (fun e => e) (watchers s) false keeps_id) as H.
+    rewrite option_map_id in H. exact H.
   - destruct (lookup q (running s)); simpl; [|apply ext_refl].
     destruct (e_chan e); simpl; [apply ext_refl|]. apply ext_upd. apply keeps_pop.
 Qed.
@@ -734,6 +788,48 @@ Proof.
 Qed.
 
 (* ------------------------------------------------------------------ *)
+(* nothing ever blocks while a table lock is held                      *)
+(* ------------------------------------------------------------------ *)
+Lemma wedged_cancel q s : wedged (cancel q s) = wedged s.
+Proof.
+  unfold cancel. destruct (lookup q (running s)); [reflexivity|].
+  destruct (remove_first q (waiting s)); reflexivity.
+Qed.
+
+Lemma unwedged_step mx s o : Inv mx s -> wedged s = false -> wedged (fst (step mx s o)) = false.
+Proof.
+  intros I W. unfold step. rewrite W.
+  destruct o as [q a f| |q|q|q|q|q|q]; simpl.
+  - destruct (existsb (has_qid q) (running s)); [auto|]. destruct f; simpl; [reflexivity|].
+    destruct (Nat.leb MAX_WAITING (length (waiting s))); auto.
+  - destruct (Nat.ltb (length (running s)) mx); [|auto].
+    destruct (waiting s) as [|e wq] eqn:Wt; [auto|]. cbn [fst].
+    pose proof (i_fresh _ _ I) as Fr. rewrite Wt in Fr. inversion Fr as [|x l (C1 & C2 & C3 & C4) Fr']; subst.
+    unfold run_query. rewrite C3, admit_fresh; auto.
+  - rewrite wedged_cancel. exact W.
+  - destruct (remove_watcher_q q (watchers s)) as [[wt|] ws]; simpl; [|auto].
+    destruct (lookup q (running s)) as [e|]; simpl; [|auto].
+    destruct (has_room e); simpl; [|auto]. rewrite wedged_cancel. reflexivity.
+  - unfold exec_send. destruct (lookup q (running s)); [|auto]. destruct (has_room e); auto.
+  - unfold exec_send. destruct (lookup q (running s)); [|auto]. destruct (has_room e); auto.
+  - destruct (lookup q (running s)); [reflexivity|]. destruct (remove_first q (waiting s)); reflexivity.
+  - destruct (lookup q (running s)); [|auto]. destruct (e_chan e); auto.
+Qed.
+
+Lemma unwedged_run mx ops : forall s, Inv mx s -> wedged s = false -> wedged (run mx s ops) = false.
+Proof.
+  unfold run. induction ops as [|o ops IH]; simpl; intros s I W; auto.
+  apply IH; [apply Inv_step; exact I|apply unwedged_step; auto].
+Qed.
+
+(* FULL statement, true since fixes/C17-cancel-waiting-query: for every op sequence, no sender is
+   ever blocked in a channel send while holding arqMapLock or waitingQueriesLock.  (READY and
+   RUNNING are sent under arqMapLock, but always into the empty channel of a query that has never
+   run; CANCELLED and TIMEOUT are sent with no lock held.) *)
+Theorem no_send_on_full_channel_under_lock mx ops : wedged (run mx init ops) = false.
+Proof. apply unwedged_run; [apply Inv_init|reflexivity]. Qed.
+
+(* ------------------------------------------------------------------ *)
 (* no entry after a terminal state                                     *)
 (* ------------------------------------------------------------------ *)
 Lemma in_table_remove_qid q l : in_table q (remove_qid q l) = false.
@@ -753,39 +849,6 @@ Proof.
   unfold has_qid in H2. apply N.eqb_eq in H2. exact H2.
 Qed.
 
-(* guarded: DeleteQuery of a query that is not (also) in the waiting queue leaves no entry of that
-   qid in either table.  Guard = the state is not wedged and the qid is not in waitingQueries. *)
-Theorem no_entry_after_terminal_guarded mx ops q :
-  let s := run mx init ops in
-  wedged s = false -> in_table q (waiting s) = false ->
-  let s' := fst (step mx s (Delete q)) in
-  in_table q (running s') = false /\ in_table q (waiting s') = false.
-Proof.
-  intros s W G. unfold step. rewrite W.
-  destruct (lookup q (running s)) eqn:L; simpl.
-  - split; [apply in_table_remove_qid|exact G].
-  - split; [apply lookup_none_in_table; exact L|exact G].
-Qed.
-
-(* FULL statement (false for this code): after DeleteQuery(q) the qid is in neither table. *)
-Definition refute_delete_ops : list op := [Start 7 false false; Delete 7].
-Theorem no_entry_after_terminal_refuted :
-  exists mx ops q, wedged (run mx init ops) = false /\
-    in_table q (waiting (run mx init (ops ++ [Delete q]))) = true.
-Proof. exists 2, [Start 7 false false], 7%N. vm_compute. split; reflexivity. Qed.
-
-(* FULL statement (false): a cancelled query is never started.  Witness: the query is cancelled
-   while waiting; the puller then admits it, not cancelled, with READY and RUNNING sent and
-   no CANCELLED ever. *)
-Theorem cancel_waiting_refuted :
-  exists mx ops q, in_table q (waiting (run mx init ops)) = true /\
-    let s' := run mx init (ops ++ [Cancel q; Pull]) in
-    exists e, lookup q (running s') = Some e /\ e_cancelled e = false /\ e_log e = [RUNNING; READY] /\ term_of e = None.
-Proof.
-  exists 2, [Start 7 false false], 7%N. split; [vm_compute; reflexivity|].
-  eexists. vm_compute. repeat split; reflexivity.
-Qed.
-
 Lemma lookup_upd_qid q f l : (forall e, e_qid (f e) = e_qid e) ->
   lookup q (upd_qid q f l) = option_map f (lookup q l).
 Proof.
@@ -795,28 +858,296 @@ Proof.
   - rewrite E. exact IHl.
 Qed.
 
-(* guarded: CancelQuery of a query in the running table whose channel has room is a terminal
-   transition: the flag is set, CANCELLED is in its log, nothing blocks. *)
-Theorem cancel_running_guarded mx ops q e :
+
+Lemma in_table_app q a b : in_table q (a ++ b) = in_table q a || in_table q b.
+Proof. unfold in_table. apply existsb_app. Qed.
+
+Lemma in_table_iff q l : in_table q l = true <-> In q (map e_qid l).
+Proof.
+  unfold in_table. rewrite existsb_exists, in_map_iff. split.
+  - intros [e [H1 H2]]. exists e. unfold has_qid in H2. apply N.eqb_eq in H2. auto.
+  - intros [e [H1 H2]]. exists e. split; auto. unfold has_qid. apply N.eqb_eq. auto.
+Qed.
+
+Lemma in_table_false q l : in_table q l = false <-> ~ In q (map e_qid l).
+Proof.
+  rewrite <- in_table_iff. destruct (in_table q l); split; intros; try discriminate; auto.
+  exfalso. auto.
+Qed.
+
+Lemma remove_qid_absent q l : in_table q l = false -> remove_qid q l = l.
+Proof.
+  unfold in_table, remove_qid. induction l; simpl; auto. intros H.
+  apply orb_false_iff in H. destruct H as [H1 H2]. rewrite H1. simpl. rewrite IHl; auto.
+Qed.
+
+(* live queries have distinct qids *)
+Definition dup_free (s : st) : Prop := NoDup (map e_qid (running s ++ waiting s)).
+
+(* every live timeout-watcher goroutine belongs to an entry of the running table *)
+Definition watchers_owned (s : st) : Prop :=
+  forall w, In w (watchers s) -> exists e, In e (running s) /\ e_ser e = fst w /\ e_qid e = snd w.
+
+Lemma remove_first_some q l : in_table q l = true ->
+  exists e, fst (remove_first q l) = Some e /\ e_qid e = q /\ In e l.
+Proof.
+  unfold in_table. induction l; simpl; [discriminate|]. intros H.
+  destruct (has_qid q a) eqn:E.
+  - exists a. simpl. unfold has_qid in E. apply N.eqb_eq in E. auto.
+  - simpl in H. destruct (IHl H) as [e [H1 [H2 H3]]]. destruct (remove_first q l). simpl in *.
+    exists e. auto.
+Qed.
+
+Lemma remove_first_nodup q l : NoDup (map e_qid l) -> in_table q (snd (remove_first q l)) = false.
+Proof.
+  induction l; simpl; intros ND; [reflexivity|]. inversion ND; subst.
+  destruct (has_qid q a) eqn:E.
+  - simpl. apply in_table_false. unfold has_qid in E. apply N.eqb_eq in E. subst. exact H1.
+  - specialize (IHl H2). destruct (remove_first q l). simpl in *. unfold in_table in *. simpl. rewrite E. exact IHl.
+Qed.
+
+Lemma remove_first_sub q (l : list entry) x : In x (snd (remove_first q l)) -> In x l.
+Proof.
+  pose proof (remove_first_spec q l) as RS. destruct (remove_first q l). simpl.
+  destruct RS as (_ & _ & I1 & _). auto.
+Qed.
+
+Lemma NoDup_map_sub {A B} (f : A -> B) (l l' : list A) :
+  NoDup (map f l) -> (exists x, Permutation (x ++ l') l) -> NoDup (map f l').
+Proof.
+  intros ND [x P]. apply (Permutation_map f) in P. apply Permutation_sym in P.
+  apply (Permutation_NoDup P) in ND. rewrite map_app in ND. apply NoDup_app_remove_l in ND. exact ND.
+Qed.
+
+Lemma dup_free_unqueue q r w :
+  NoDup (map e_qid (r ++ w)) -> NoDup (map e_qid (r ++ snd (remove_first q w))).
+Proof.
+  intros ND. pose proof (remove_first_spec q w) as RS. destruct (remove_first q w) as [rm wq]. simpl.
+  destruct RS as (P & _). eapply NoDup_map_sub; [exact ND|].
+  exists (opt_cons rm []). destruct rm; simpl in *.
+  - eapply Permutation_trans; [apply Permutation_middle|]. apply Permutation_app_head. exact P.
+  - apply Permutation_app_head. exact P.
+Qed.
+
+Lemma dup_free_remove_qid q r w :
+  NoDup (map e_qid (r ++ w)) -> NoDup (map e_qid (remove_qid q r ++ w)).
+Proof.
+  intros ND. eapply NoDup_map_sub; [exact ND|]. exists (filter (has_qid q) r).
+  rewrite app_assoc. apply Permutation_app_tail.
+  eapply Permutation_trans; [apply Permutation_app_comm|]. apply (filter_partition_perm (has_qid q)).
+Qed.
+
+Lemma in_upd_same q f l e : keeps f -> In e l ->
+  exists e', In e' (upd_qid q f l) /\ e_ser e' = e_ser e /\ e_qid e' = e_qid e.
+Proof.
+  intros K H. exists (if has_qid q e then f e else e). split; [apply in_upd_qid_fwd; exact H|].
+  destruct (has_qid q e); auto. destruct (K e) as (A & B & _). auto.
+Qed.
+
+Lemma owned_upd s q f (ws : list (nat * N)) : keeps f ->
+  (forall w, In w ws -> In w (watchers s)) -> watchers_owned s ->
+  forall w, In w ws -> exists e, In e (upd_qid q f (running s)) /\ e_ser e = fst w /\ e_qid e = snd w.
+Proof.
+  intros K Sub O w Hw. destruct (O w (Sub w Hw)) as [e [H1 [H2 H3]]].
+  destruct (in_upd_same q f _ e K H1) as [e' [A [B C]]]. exists e'. rewrite B, C. auto.
+Qed.
+
+Lemma owned_cancel q s : watchers_owned s -> watchers_owned (cancel q s).
+Proof.
+  intros O. unfold cancel. destruct (lookup q (running s)).
+  - intros w Hw. simpl in *. apply (owned_upd s q cancel_entry (watchers s)); auto. apply keeps_cancel_entry.
+  - destruct (remove_first q (waiting s)). exact O.
+Qed.
+
+Lemma remove_watcher_q_sub q l w : In w (snd (remove_watcher_q q l)) -> In w l.
+Proof.
+  induction l; simpl; auto. destruct (snd a =? q)%N; simpl; auto.
+  destruct (remove_watcher_q q l). simpl in *. intros [H|H]; auto.
+Qed.
+
+Lemma qids_upd q f r w : keeps f -> map e_qid (upd_qid q f r ++ w) = map e_qid (r ++ w).
+Proof. intros K. rewrite !map_app, map_qid_upd; auto. Qed.
+
+Lemma dup_free_cancel q s : dup_free s -> dup_free (cancel q s).
+Proof.
+  unfold dup_free, cancel. intros D. destruct (lookup q (running s)).
+  - simpl. rewrite qids_upd; auto. apply keeps_cancel_entry.
+  - pose proof (dup_free_unqueue q (running s) (waiting s) D) as H.
+    destruct (remove_first q (waiting s)). exact H.
+Qed.
+
+(* admission of an entry whose qid is in no table *)
+Lemma admit_dup_owned e s0 :
+  e_chan e = [] -> e_cancelled e = false ->
+  NoDup (e_qid e :: map e_qid (running s0 ++ waiting s0)) -> watchers_owned s0 ->
+  dup_free (run_query e s0) /\ watchers_owned (run_query e s0).
+Proof.
+  intros Hc Hcan ND O. unfold run_query. rewrite Hcan, admit_fresh; auto.
+  inversion ND as [|x l Hni ND']; subst.
+  assert (A : in_table (e_qid e) (running s0) = false).
+  { apply in_table_false. intros C. apply Hni. rewrite map_app. apply in_or_app. auto. }
+  rewrite (remove_qid_absent _ _ A). split.
+  - unfold dup_free. simpl. constructor; auto.
+  - intros w Hw. simpl in Hw. apply in_app_or in Hw. destruct Hw as [Hw|[Hw|[]]].
+    + destruct (O w Hw) as [x [H1 H2]]. exists x. simpl. auto.
+    + subst. exists (push RUNNING (push READY e)). simpl. auto.
+Qed.
+
+Definition start_fresh (s : st) (o : op) : Prop :=
+  match o with Start q _ _ => in_table q (running s ++ waiting s) = false | _ => True end.
+
+Lemma dup_owned_step mx s o : Inv mx s -> start_fresh s o ->
+  dup_free s -> watchers_owned s ->
+  dup_free (fst (step mx s o)) /\ watchers_owned (fst (step mx s o)).
+Proof.
+  intros I SF D O. unfold step. destruct (wedged s); [auto|].
+  destruct o as [q a f| |q|q|q|q|q|q]; simpl.
+  - destruct (existsb (has_qid q) (running s)); [auto|]. simpl in SF.
+    destruct f; simpl.
+    + apply admit_dup_owned; simpl; auto. constructor; auto. apply in_table_false. exact SF.
+    + destruct (Nat.leb MAX_WAITING (length (waiting s))); [auto|]. simpl. split; [|exact O].
+      unfold dup_free. simpl. rewrite app_assoc.
+      eapply Permutation_NoDup; [apply Permutation_map, Permutation_cons_append|].
+      simpl. constructor; auto. apply in_table_false. exact SF.
+  - destruct (Nat.ltb (length (running s)) mx); [|auto].
+    destruct (waiting s) as [|e wq] eqn:Wt; [auto|]. cbn [fst].
+    pose proof (i_fresh _ _ I) as Fr. rewrite Wt in Fr. inversion Fr as [|x l (C1 & C2 & C3 & C4) Fr']; subst.
+    apply admit_dup_owned; simpl; auto.
+    unfold dup_free in D. rewrite Wt in D.
+    eapply Permutation_NoDup; [|exact D].
+    change (e_qid e :: map e_qid (running s ++ wq)) with (map e_qid (e :: running s ++ wq)).
+    apply Permutation_map. apply Permutation_sym, Permutation_middle.
+  - split; [apply dup_free_cancel; exact D|apply owned_cancel; exact O].
+  - destruct (remove_watcher_q q (watchers s)) as [[wt|] ws] eqn:RW; simpl; [|auto].
+    assert (Sub : forall w, In w ws -> In w (watchers s)).
+    { intros w Hw. apply (remove_watcher_q_sub q). rewrite RW. exact Hw. }
+    destruct (lookup q (running s)) as [e|]; simpl.
+    + destruct (has_room e); simpl; [|auto]. split.
+      * apply dup_free_cancel. unfold dup_free. simpl. rewrite qids_upd; auto. apply keeps_push; reflexivity.
+      * apply owned_cancel. intros w Hw. simpl in *.
+        apply (owned_upd s q (push TIMEOUT) ws); auto. apply keeps_push; reflexivity.
+    + split; [exact D|]. intros w Hw. simpl in *. apply O. auto.
+  - unfold exec_send. destruct (lookup q (running s)); [|auto]. destruct (has_room e); [|auto]. split.
+    + unfold dup_free. simpl. rewrite qids_upd; auto. apply keeps_push; reflexivity.
+    + intros w Hw. simpl in *. apply (owned_upd s q (push COMPLETE) (watchers s)); auto. apply keeps_push; reflexivity.
+  - unfold exec_send. destruct (lookup q (running s)); [|auto]. destruct (has_room e); [|auto]. split.
+    + unfold dup_free. simpl. rewrite qids_upd; auto. apply keeps_push; reflexivity.
+    + intros w Hw. simpl in *. apply (owned_upd s q (push ERROR) (watchers s)); auto. apply keeps_push; reflexivity.
+  - destruct (lookup q (running s)) as [e|] eqn:L.
+    + simpl. split; [apply dup_free_remove_qid; exact D|].
+      apply lookup_some in L. destruct L as [Le Lq].
+      intros w Hw. simpl in Hw. unfold remove_watcher_ser in Hw. apply filter_In in Hw. destruct Hw as [Hw Hne].
+      destruct (O w Hw) as [x [H1 [H2 H3]]]. exists x. simpl. split; [|auto].
+      unfold remove_qid. apply filter_In. split; auto.
+      destruct (has_qid q x) eqn:E; [|reflexivity]. exfalso.
+      unfold has_qid in E. apply N.eqb_eq in E.
+      assert (x = e).
+      { apply (NoDup_map_inj e_qid (running s)); auto; [apply (i_qids _ _ I)|congruence]. }
+      subst. rewrite H2, Nat.eqb_refl in Hne. discriminate.
+    + pose proof (dup_free_unqueue q (running s) (waiting s) D) as H.
+      destruct (remove_first q (waiting s)). simpl in *. split; [exact H|exact O].
+  - destruct (lookup q (running s)); [|auto]. destruct (e_chan e); [auto|]. simpl. split.
+    + unfold dup_free. simpl. rewrite qids_upd; auto. apply keeps_pop.
+    + intros w Hw. simpl in *. apply (owned_upd s q pop (watchers s)); auto. apply keeps_pop.
+Qed.
+
+Lemma live_fresh_run mx ops : forall s, Inv mx s -> dup_free s -> watchers_owned s ->
+  live_fresh mx s ops = true ->
+  dup_free (run mx s ops) /\ watchers_owned (run mx s ops).
+Proof.
+  unfold run. induction ops as [|o ops IH]; simpl; intros s I D O LF; auto.
+  apply andb_true_iff in LF. destruct LF as [L1 L2].
+  assert (SF : start_fresh s o).
+  { destruct o; simpl; auto. apply negb_true_iff in L1. exact L1. }
+  destruct (dup_owned_step mx s o I SF D O) as [D' O'].
+  apply IH; auto. apply Inv_step. exact I.
+Qed.
+
+Lemma live_fresh_reach mx ops : live_fresh mx init ops = true ->
+  dup_free (run mx init ops) /\ watchers_owned (run mx init ops).
+Proof.
+  intros LF. apply live_fresh_run; auto.
+  - apply Inv_init.
+  - constructor.
+  - intros w [].
+Qed.
+
+Theorem live_qids_unique mx ops : live_fresh mx init ops = true ->
+  NoDup (map e_qid (running (run mx init ops) ++ waiting (run mx init ops))).
+Proof. intros LF. apply (live_fresh_reach mx ops LF). Qed.
+
+(* FULL statement, true since fixes/C17-cancel-waiting-query: after DeleteQuery(q) the qid is in
+   neither table, wherever the query was (running or still waiting). *)
+Theorem no_entry_after_terminal mx ops q : live_fresh mx init ops = true ->
+  let s' := fst (step mx (run mx init ops) (Delete q)) in
+  in_table q (running s') = false /\ in_table q (waiting s') = false.
+Proof.
+  intros LF. destruct (live_fresh_reach mx ops LF) as [D _]. set (s := run mx init ops) in *.
+  pose proof (no_send_on_full_channel_under_lock mx ops : wedged s = false) as W.
+  unfold step. rewrite W. unfold dup_free in D.
+  destruct (lookup q (running s)) as [e|] eqn:L; simpl.
+  - split; [apply in_table_remove_qid|]. apply lookup_some in L. destruct L as [Le Lq].
+    apply in_table_false. intros C. rewrite map_app in D.
+    eapply NoDup_app_disjoint; [exact D| |exact C]. rewrite <- Lq. apply in_map. exact Le.
+  - rewrite map_app in D. apply NoDup_app_remove_l in D.
+    pose proof (remove_first_nodup q (waiting s) D) as H.
+    destruct (remove_first q (waiting s)). simpl in *. split; [apply lookup_none_in_table; exact L|exact H].
+Qed.
+
+(* FULL statement, true since the fix: a query cancelled while it is waiting is taken out of the queue,
+   is told CANCELLED, and (with removed_instance_never_returns, started_once) is never started. *)
+Theorem cancel_waiting_never_started mx ops q : live_fresh mx init ops = true ->
+  in_table q (waiting (run mx init ops)) = true ->
+  let s' := fst (step mx (run mx init ops) (Cancel q)) in
+  in_table q (running s') = false /\ in_table q (waiting s') = false /\
+  exists e', In e' (dead s') /\ e_qid e' = q /\ e_cancelled e' = true /\ e_log e' = [CANCELLED] /\
+             term_of e' = Some CANCELLED.
+Proof.
+  intros LF Hw. destruct (live_fresh_reach mx ops LF) as [D _]. set (s := run mx init ops) in *.
+  pose proof (no_send_on_full_channel_under_lock mx ops : wedged s = false) as W.
+  pose proof (Inv_reach mx ops : Inv mx s) as I.
+  unfold step. rewrite W. simpl. unfold cancel. unfold dup_free in D.
+  assert (L : lookup q (running s) = None).
+  { destruct (lookup q (running s)) as [e|] eqn:L; auto. exfalso.
+    apply lookup_some in L. destruct L as [Le Lq]. rewrite map_app in D.
+    eapply NoDup_app_disjoint; [exact D| |apply in_table_iff; exact Hw]. rewrite <- Lq. apply in_map. exact Le. }
+  rewrite L. destruct (remove_first_some q _ Hw) as [e [E1 [E2 E3]]].
+  assert (ND : NoDup (map e_qid (waiting s))) by (rewrite map_app in D; apply NoDup_app_remove_l in D; exact D).
+  pose proof (remove_first_nodup q (waiting s) ND) as H.
+  destruct (remove_first q (waiting s)) as [rm wq]. simpl in *. subst rm.
+  split; [apply lookup_none_in_table; exact L|]. split; [exact H|].
+  pose proof (i_fresh _ _ I) as Fr. rewrite Forall_forall in Fr. destruct (Fr e E3) as (C1 & C2 & C3 & C4).
+  exists (cancel_entry e). simpl. split; [left; reflexivity|].
+  unfold cancel_entry, has_room. rewrite C1. simpl. rewrite C2. unfold term_of. simpl. rewrite C2. auto.
+Qed.
+
+(* CancelQuery of a running query always sets the flag; with room in the channel CANCELLED is
+   delivered and the query has a terminal state *)
+Theorem cancel_running_terminal mx ops q e :
   let s := run mx init ops in
-  wedged s = false -> lookup q (running s) = Some e -> has_room e = true ->
+  lookup q (running s) = Some e ->
   let s' := fst (step mx s (Cancel q)) in
   exists e', lookup q (running s') = Some e' /\ e_ser e' = e_ser e /\ e_cancelled e' = true /\
-             e_log e' = CANCELLED :: e_log e /\ term_of e' <> None /\ wedged s' = false.
+             (has_room e = true -> e_log e' = CANCELLED :: e_log e /\ term_of e' <> None).
 Proof.
-  intros s W L R. unfold step. rewrite W. simpl. unfold cancel. rewrite L.
-  destruct (remove_first q (waiting s)) as [rm wq]. simpl.
+  intros s L. pose proof (no_send_on_full_channel_under_lock mx ops : wedged s = false) as W.
+  unfold step. rewrite W. simpl. unfold cancel. rewrite L. simpl.
   rewrite lookup_upd_qid by (intros x; apply keeps_cancel_entry). rewrite L. simpl.
-  exists (cancel_entry e). unfold cancel_entry. rewrite R. simpl. repeat split; auto.
-  unfold term_of. simpl. intros C.
-  assert (In CANCELLED (rev (e_log e) ++ [CANCELLED])) as Hin by (apply in_or_app; right; left; reflexivity).
-  eapply find_none in C; [|exact Hin]. discriminate.
+  exists (cancel_entry e). unfold cancel_entry. destruct (has_room e); simpl.
+  - split; [reflexivity|]. split; [reflexivity|]. split; [reflexivity|]. intros _. split; [reflexivity|].
+    unfold term_of. simpl. intros C.
+    assert (In CANCELLED (rev (e_log e) ++ [CANCELLED])) as Hin by (apply in_or_app; right; left; reflexivity).
+    eapply find_none in C; [|exact Hin]. discriminate.
+  - split; [reflexivity|]. split; [reflexivity|]. split; [reflexivity|]. discriminate.
 Qed.
 
 (* entries in the graveyard stay there unchanged, and are in no table again *)
 Lemma dead_mono_step mx s o e : In e (dead s) -> In e (dead (fst (step mx s o))).
 Proof.
   intros H. unfold step. destruct (wedged s); [exact H|].
+  assert (DC : forall q s0, In e (dead s0) -> In e (dead (cancel q s0))).
+  { intros q s0 H0. unfold cancel. destruct (lookup q (running s0)); [exact H0|].
+    destruct (remove_first q (waiting s0)) as [rm wq]. simpl. destruct rm; simpl; auto. }
   destruct o as [q a f| |q|q|q|q|q|q]; simpl.
   - destruct (existsb (has_qid q) (running s)); [exact H|]. destruct f; simpl.
     + unfold run_query. simpl. apply in_or_app. auto.
@@ -825,30 +1156,20 @@ Proof.
     unfold run_query. destruct (e_cancelled e0); simpl; [right; exact H|].
     match goal with |- context [send_locked RUNNING ?x] => destruct (send_locked RUNNING x) end.
     simpl. apply in_or_app. auto.
-  - unfold cancel. destruct (lookup q (running s)); [|exact H]. destruct (remove_first q (waiting s)) as [rm wq].
-    simpl. destruct rm; simpl; auto.
+  - apply DC. exact H.
   - destruct (remove_watcher_q q (watchers s)) as [[wt|] ws]; simpl; [|exact H].
     destruct (lookup q (running s)) as [e0|]; simpl; [|exact H].
-    destruct (has_room e0); simpl; [|exact H].
-    unfold cancel. simpl. destruct (lookup q (upd_qid q (push TIMEOUT) (running s))); [|exact H].
+    destruct (has_room e0); simpl; [|exact H]. apply DC. exact H.
+  - unfold exec_send. destruct (lookup q (running s)); [|exact H]. destruct (has_room e0); exact H.
+  - unfold exec_send. destruct (lookup q (running s)); [|exact H]. destruct (has_room e0); exact H.
+  - destruct (lookup q (running s)); simpl; [apply in_or_app; auto|].
     destruct (remove_first q (waiting s)) as [rm wq]. simpl. destruct rm; simpl; auto.
-  - unfold exec_send. destruct (lookup q (running s)); [|exact H]. destruct (has_room e0); exact H.
-  - unfold exec_send. destruct (lookup q (running s)); [|exact H]. destruct (has_room e0); exact H.
-  - destruct (lookup q (running s)); simpl; [|exact H]. apply in_or_app. auto.
   - destruct (lookup q (running s)); simpl; [|exact H]. destruct (e_chan e0); exact H.
 Qed.
 
 Lemma dead_mono_run mx ops : forall s e, In e (dead s) -> In e (dead (run mx s ops)).
 Proof.
   unfold run. induction ops; simpl; intros s e H; auto. apply IHops. apply dead_mono_step. exact H.
-Qed.
-
-Lemma NoDup_app_disjoint {A} (l1 l2 : list A) a : NoDup (l1 ++ l2) -> In a l1 -> In a l2 -> False.
-Proof.
-  induction l1; simpl; intros ND H1 H2; [contradiction|].
-  inversion ND; subst. destruct H1 as [H1|H1].
-  - subst. apply H3. apply in_or_app. auto.
-  - auto.
 Qed.
 
 Theorem removed_instance_never_returns mx ops1 ops2 e :
@@ -869,190 +1190,86 @@ Qed.
 (* ------------------------------------------------------------------ *)
 (* timeout watcher goroutines                                          *)
 (* ------------------------------------------------------------------ *)
-(* guarded: DeleteQuery of a query that was not cancelled releases its watcher *)
-Theorem watcher_released_guarded mx ops q e :
+(* FULL statement, true since fixes/C17-release-timeout-watcher: every live timeout watcher belongs
+   to an entry of the running table; once a query has left the tables (DeleteQuery, whether it was
+   cancelled, timed out or completed) no goroutine of its life cycle remains. *)
+Theorem watcher_released mx ops : live_fresh mx init ops = true ->
   let s := run mx init ops in
-  wedged s = false -> lookup q (running s) = Some e -> e_cancelled e = false ->
-  forall w, In w (watchers (fst (step mx s (Delete q)))) -> fst w <> e_ser e.
+  forall w, In w (watchers s) -> exists e, In e (running s) /\ e_ser e = fst w /\ e_qid e = snd w.
+Proof. intros LF. apply (live_fresh_reach mx ops LF). Qed.
+
+Corollary no_goroutine_when_tables_empty mx ops : live_fresh mx init ops = true ->
+  running (run mx init ops) = [] -> watchers (run mx init ops) = [].
 Proof.
-  intros s W L C w. unfold step. rewrite W, L. simpl. rewrite C. unfold remove_watcher_ser.
-  rewrite filter_In. intros [_ H] E. rewrite E, Nat.eqb_refl in H. discriminate.
-Qed.
-
-(* FULL statement (false): after a terminal state and DeleteQuery no goroutine of the query remains.
-   Witness: start, cancel, delete: both tables empty, the watcher is still there. *)
-Theorem watcher_released_refuted :
-  exists mx ops q, let s := run mx init ops in
-    running s = [] /\ waiting s = [] /\ wedged s = false /\ has_watcher q s = true.
-Proof. exists 2, [Start 7 false true; Cancel 7; Delete 7], 7%N. vm_compute. repeat split; reflexivity. Qed.
-
-(* ------------------------------------------------------------------ *)
-(* no send on a full channel while a table lock is held                *)
-(* ------------------------------------------------------------------ *)
-Lemma sends_app q a b : sends q (a ++ b) = sends q a + sends q b.
-Proof. induction a; simpl; auto. rewrite IHa. lia. Qed.
-
-Definition cb (g : N -> nat) (s : st) : Prop :=
-  forall e, In e (running s) -> length (e_chan e) <= g (e_qid e).
-
-Lemma cb_weaken g g' s : cb g s -> (forall x, g x <= g' x) -> cb g' s.
-Proof. intros H W e Hin. specialize (H e Hin). specialize (W (e_qid e)). lia. Qed.
-
-Lemma has_room_iff e : has_room e = true <-> length (e_chan e) < 10.
-Proof. unfold has_room, CHAN_CAP. apply Nat.ltb_lt. Qed.
-
-Lemma cb_upd g s q f k ws w wq d ad n :
-  cb g s -> keeps f -> (forall e, length (e_chan (f e)) <= length (e_chan e) + k) ->
-  cb (fun x => if (x =? q)%N then g x + k else g x)
-     (mkS (upd_qid q f (running s)) wq ws d ad n w).
-Proof.
-  intros H K L e' Hin. simpl in Hin. apply in_upd_qid in Hin. destruct Hin as [e [Hin E]]. subst.
-  specialize (H e Hin). unfold has_qid. destruct (e_qid e =? q)%N eqn:Q.
-  - destruct (K e) as (_ & Kq & _). rewrite Kq, Q. specialize (L e). lia.
-  - rewrite Q. exact H.
-Qed.
-
-Lemma cancel_entry_len e : length (e_chan (cancel_entry e)) <= length (e_chan e) + 1.
-Proof.
-  unfold cancel_entry. destruct (has_room e); simpl; [rewrite app_length; simpl|]; lia.
-Qed.
-
-Lemma noblock_cancel g s q : cb g s -> g q <= 9 -> wedged s = false ->
-  wedged (cancel q s) = false /\ cb (fun x => if (x =? q)%N then g x + 1 else g x) (cancel q s).
-Proof.
-  intros H G W. unfold cancel. destruct (lookup q (running s)) as [e|] eqn:L.
-  - destruct (remove_first q (waiting s)) as [rm wq]. simpl.
-    apply lookup_some in L. destruct L as [Hin Hq]. split.
-    + specialize (H e Hin). rewrite Hq in H.
-      assert (R : has_room e = true) by (apply has_room_iff; lia). rewrite R. reflexivity.
-    + apply cb_upd; auto. apply keeps_cancel_entry. apply cancel_entry_len.
-  - split; auto. eapply cb_weaken; [exact H|]. intros x. simpl. destruct (x =? q)%N; lia.
-Qed.
-
-Lemma cb_admit g s0 e : cb g s0 -> e_chan e = [] -> e_cancelled e = false -> 2 <= g (e_qid e) ->
-  wedged (run_query e s0) = false /\ cb g (run_query e s0).
-Proof.
-  intros H Hc Hcan G. unfold run_query. rewrite Hcan, admit_fresh; auto. simpl. split; auto.
-  intros x [Hx|Hx].
-  - subst. simpl. rewrite Hc. simpl. exact G.
-  - unfold remove_qid in Hx. apply filter_In in Hx. apply H. tauto.
-Qed.
-
-Lemma noblock_step mx ops s o :
-  Inv mx s -> wedged s = false -> cb (fun x => 2 + sends x ops) s ->
-  (forall q, sends q (ops ++ [o]) <= 8) ->
-  wedged (fst (step mx s o)) = false /\ cb (fun x => 2 + sends x (ops ++ [o])) (fst (step mx s o)).
-Proof.
-  intros I W H B.
-  assert (M : forall x, 2 + sends x ops <= 2 + sends x (ops ++ [o])) by (intros; rewrite sends_app; lia).
-  assert (H' : cb (fun x => 2 + sends x (ops ++ [o])) s) by (eapply cb_weaken; eauto).
-  unfold step. rewrite W.
-  destruct o as [q a f| |q|q|q|q|q|q]; simpl.
-  - destruct (existsb (has_qid q) (running s)); [auto|].
-    destruct f; cbn [fst].
-    + apply cb_admit; simpl; auto. lia.
-    + destruct (Nat.leb MAX_WAITING (length (waiting s))); simpl; auto.
-  - destruct (Nat.ltb (length (running s)) mx); [|auto].
-    destruct (waiting s) as [|e wq] eqn:Wt; [auto|]. cbn [fst].
-    pose proof (i_fresh _ _ I) as Fr. rewrite Wt in Fr. inversion Fr as [|x l (C1 & C2 & C3 & C4) Fr']; subst.
-    apply cb_admit; simpl; auto. lia.
-  - destruct (noblock_cancel _ s q H) as [A1 A2]; auto.
-    { specialize (B q). rewrite sends_app in B. simpl in B. rewrite N.eqb_refl in B. lia. }
-    split; auto. eapply cb_weaken; [exact A2|]. intros x. simpl. rewrite sends_app. simpl.
-    rewrite (N.eqb_sym q x). destruct (x =? q)%N; lia.
-  - destruct (remove_watcher_q q (watchers s)) as [[wt|] ws]; simpl; [|auto].
-    destruct (lookup q (running s)) as [e|] eqn:L; simpl; [|auto].
-    destruct (has_room e) eqn:R; simpl; [|auto].
-    set (s1 := mkS (upd_qid q (push TIMEOUT) (running s)) (waiting s) ws (dead s) (admitted s) (nser s) false).
-    assert (H1 : cb (fun x => if (x =? q)%N then (2 + sends x ops) + 1 else 2 + sends x ops) s1).
-    { apply cb_upd; auto. apply keeps_push; reflexivity. intros x. simpl. rewrite app_length. simpl. lia. }
-    destruct (noblock_cancel _ s1 q H1) as [A1 A2]; auto.
-    { rewrite N.eqb_refl. specialize (B q). rewrite sends_app in B. simpl in B. rewrite N.eqb_refl in B. lia. }
-    split; auto. eapply cb_weaken; [exact A2|]. intros x. simpl. rewrite sends_app. simpl.
-    rewrite (N.eqb_sym q x). destruct (x =? q)%N; lia.
-  - unfold exec_send. destruct (lookup q (running s)); [|auto]. destruct (has_room e); [|auto]. simpl.
-    split; auto. eapply cb_weaken.
-    + apply (cb_upd (fun x => 2 + sends x ops) s q (push COMPLETE) 1); eauto. apply keeps_push; reflexivity.
-      intros x. simpl. rewrite app_length. simpl. lia.
-    + intros x. simpl. rewrite sends_app. simpl. rewrite (N.eqb_sym q x). destruct (x =? q)%N; lia.
-  - unfold exec_send. destruct (lookup q (running s)); [|auto]. destruct (has_room e); [|auto]. simpl.
-    split; auto. eapply cb_weaken.
-    + apply (cb_upd (fun x => 2 + sends x ops) s q (push ERROR) 1); eauto. apply keeps_push; reflexivity.
-      intros x. simpl. rewrite app_length. simpl. lia.
-    + intros x. simpl. rewrite sends_app. simpl. rewrite (N.eqb_sym q x). destruct (x =? q)%N; lia.
-  - destruct (lookup q (running s)); simpl; [|auto]. split; auto.
-    intros x Hx. simpl in Hx. unfold remove_qid in Hx. apply filter_In in Hx. apply H'. tauto.
-  - destruct (lookup q (running s)); simpl; [|auto]. destruct (e_chan e); simpl; [auto|].
-    split; auto. eapply cb_weaken.
-    + apply (cb_upd (fun x => 2 + sends x ops) s q pop 0); eauto. apply keeps_pop.
-      intros x. simpl. destruct (e_chan x); simpl; lia.
-    + intros x. simpl. specialize (M x). destruct (x =? q)%N; lia.
+  intros LF R. destruct (watchers (run mx init ops)) as [|w l] eqn:Wt; auto.
+  destruct (watcher_released mx ops LF w) as [e [H _]]; [rewrite Wt; left; reflexivity|].
+  rewrite R in H. contradiction.
 Qed.
 
 Lemma run_snoc mx s ops o : run mx s (ops ++ [o]) = fst (step mx (run mx s ops) o).
 Proof. rewrite run_app. reflexivity. Qed.
 
-Lemma noblock_run mx ops : (forall q, sends q ops <= 8) ->
-  wedged (run mx init ops) = false /\ cb (fun x => 2 + sends x ops) (run mx init ops).
-Proof.
-  induction ops as [|o ops IH] using rev_ind; intros B.
-  - split; [reflexivity|]. intros e [].
-  - assert (B' : forall q, sends q ops <= 8).
-    { intros q. specialize (B q). rewrite sends_app in B. lia. }
-    destruct (IH B') as [W H]. rewrite run_snoc.
-    apply noblock_step; auto. apply Inv_reach.
-Qed.
 
-Lemma send_budget_all ops : send_budget_ok ops = true -> forall q, sends q ops <= 8.
-Proof.
-  unfold send_budget_ok. intros H q. rewrite forallb_forall in H.
-  assert (D : (exists o, In o ops /\ op_qid o = q) \/ sends q ops = 0).
-  { clear H. induction ops as [|o ops IH]; simpl; [right; reflexivity|].
-    destruct IH as [[o' [Hin Hq]]|Hz].
-    - left. exists o'. auto.
-    - destruct (N.eq_dec (op_qid o) q) as [E|E].
-      + left. exists o. auto.
-      + right. rewrite Hz. destruct o; simpl in *; try reflexivity;
-          match goal with |- context [(?a =? ?b)%N] => destruct (N.eqb_spec a b); [congruence|reflexivity] end. }
-  destruct D as [[o [Hin Hq]]|Hz]; [|lia].
-  specialize (H o Hin). rewrite Hq in H. apply Nat.leb_le in H. exact H.
-Qed.
-
-(* guarded: when no qid is sent more than 8 messages besides READY and RUNNING (the consumer
-   terminates the query after its first terminal message), no sender ever blocks on a full
-   StateChan while holding arqMapLock or waitingQueriesLock. *)
-Theorem no_send_on_full_channel_under_lock_guarded mx ops :
-  send_budget_ok ops = true -> wedged (run mx init ops) = false.
-Proof. intros H. apply noblock_run. apply send_budget_all. exact H. Qed.
-
-(* admission itself can never block: a query leaves the waiting queue with an empty channel *)
+(* admission never blocks (kept as its own statement; it is the reason the theorem above holds) *)
 Theorem admission_never_blocks mx ops o :
-  wedged (run mx init ops) = false -> (o = Pull \/ exists q a f, o = Start q a f) ->
+  (o = Pull \/ exists q a f, o = Start q a f) ->
   wedged (fst (step mx (run mx init ops) o)) = false.
 Proof.
-  intros W Ho. set (s := run mx init ops) in *. pose proof (Inv_reach mx ops : Inv mx s) as I.
-  unfold step. rewrite W. destruct Ho as [->|(q & a & f & ->)]; simpl.
-  - destruct (Nat.ltb (length (running s)) mx); [|auto].
-    destruct (waiting s) as [|e wq] eqn:Wt; [auto|]. simpl.
-    pose proof (i_fresh _ _ I) as Fr. rewrite Wt in Fr. inversion Fr as [|x l (C1 & C2 & C3 & C4) Fr']; subst.
-    unfold run_query. rewrite C3, admit_fresh; auto.
-  - destruct (existsb (has_qid q) (running s)); [auto|]. destruct f; simpl.
-    + unfold run_query. simpl. reflexivity.
-    + destruct (Nat.leb MAX_WAITING (length (waiting s))); auto.
+  intros _. apply unwedged_step; [apply Inv_reach|apply no_send_on_full_channel_under_lock].
 Qed.
 
-(* FULL statement (false): no op sequence blocks a sender under a lock.  Witness: a running query
-   nobody reads from is cancelled 9 times. *)
-Theorem no_send_on_full_channel_refuted :
-  exists mx ops, wedged (run mx init ops) = true /\
-    wedged (run mx init (removelast ops)) = false.
+(* ------------------------------------------------------------------ *)
+(* regression witnesses of the repaired defects (fixed code)           *)
+(* ------------------------------------------------------------------ *)
+Example fixed_cancel_waiting :
+  let s := run 2 init [Start 7 false false; Cancel 7; Pull] in
+  running s = [] /\ waiting s = [] /\ map e_log (dead s) = [[CANCELLED]].
+Proof. vm_compute. auto. Qed.
+
+Example fixed_delete_waiting :
+  let s := run 2 init [Start 7 false false; Delete 7; Pull] in
+  running s = [] /\ waiting s = [] /\ map e_log (dead s) = [[]].
+Proof. vm_compute. auto. Qed.
+
+Example fixed_watcher_released :
+  let s := run 2 init [Start 7 false true; Cancel 7; Delete 7] in
+  running s = [] /\ waiting s = [] /\ watchers s = [].
+Proof. vm_compute. auto. Qed.
+
+Example fixed_cancel_full_channel_blocks_nobody :
+  let s := run 2 init (Start 1 false true :: repeat (Cancel 1) 9 ++ [Start 2 false false; Pull]) in
+  wedged s = false /\ in_table 2 (running s) = true.
+Proof. vm_compute. auto. Qed.
+
+(* ------------------------------------------------------------------ *)
+(* PRE-FIX documentation: [step_prefix] is querystatus.go before the   *)
+(* two repairs; these witnesses were confirmed on the pre-fix code     *)
+(* ------------------------------------------------------------------ *)
+Theorem prefix_no_entry_after_terminal_refuted :
+  exists mx ops q, in_table q (waiting (run_prefix mx init (ops ++ [Delete q]))) = true.
+Proof. exists 2, [Start 7 false false], 7%N. vm_compute. reflexivity. Qed.
+
+Theorem prefix_cancel_waiting_refuted :
+  exists mx ops q, in_table q (waiting (run_prefix mx init ops)) = true /\
+    let s' := run_prefix mx init (ops ++ [Cancel q; Pull]) in
+    exists e, lookup q (running s') = Some e /\ e_cancelled e = false /\ e_log e = [RUNNING; READY] /\ term_of e = None.
+Proof.
+  exists 2, [Start 7 false false], 7%N. split; [vm_compute; reflexivity|].
+  eexists. vm_compute. repeat split; reflexivity.
+Qed.
+
+Theorem prefix_watcher_released_refuted :
+  exists mx ops q, let s := run_prefix mx init ops in
+    running s = [] /\ waiting s = [] /\ wedged s = false /\ has_watcher q s = true.
+Proof. exists 2, [Start 7 false true; Cancel 7; Delete 7], 7%N. vm_compute. repeat split; reflexivity. Qed.
+
+Theorem prefix_no_send_on_full_channel_refuted :
+  exists mx ops, wedged (run_prefix mx init ops) = true /\
+    wedged (run_prefix mx init (removelast ops)) = false.
 Proof. exists 2, (Start 1 false true :: repeat (Cancel 1) 9). vm_compute. split; reflexivity. Qed.
 
-(* non-vacuity of the guards *)
-Example guards_satisfiable :
-  send_budget_ok [Start 1 false false; Pull; Recv 1; Recv 1; Complete 1; Recv 1; Delete 1] = true /\
-  (let s := run 2 init [Start 1 false true; Complete 1] in
-   wedged s = false /\ in_table 1 (waiting s) = false /\ in_table 1 (running s) = true) /\
-  (let s := run 2 init [Start 1 false true] in
-   exists e, lookup 1 (running s) = Some e /\ has_room e = true /\ e_cancelled e = false).
-Proof. split; [vm_compute; reflexivity|]. split; [vm_compute; auto|]. eexists. vm_compute. auto. Qed.
+(* the hypothesis of the full statements can be met by a history that exercises them *)
+Example live_fresh_satisfiable :
+  live_fresh 1 init [Start 1 false false; Start 2 false false; Pull; Cancel 2; Complete 1; Recv 1; Delete 1;
+                     Start 1 false true; Cancel 1; Delete 1] = true.
+Proof. vm_compute. reflexivity. Qed.
